@@ -172,7 +172,7 @@ class TypeGen:
                 return {"k": "newtype", "i": d(st.integers(0, len(self.prog["newtypes"]) - 1))}
             return self.newtype()
         if k == "std":
-            return {"k": "std", "t": pick(d, sorted(STD_VALID))}
+            return {"k": "std", "t": pick(d, sorted(x for x in STD_VALID if x != "ver" or self.cfg.get("std_multi")))}
         if k == "annprim":
             base = pick(d, ["str", "int", "float"])
             c = self.constraints(base)
@@ -571,6 +571,8 @@ STD_VALID = M.STD_IMAGES
 def valid(draw, prog: dict, t: dict, dyn: str = "id", fuel: int = 3, c: Optional[dict] = None, stack=()) -> Any:
     k = t["k"]
     if k == "std":
+        if t["t"] == "ver" and chance(draw, 0.4):
+            return pick(draw, [[1, 2], [0, 10]])
         return pick(draw, STD_VALID[t["t"]])
     if k == "str":
         return _gen_str(draw, c)
